@@ -196,6 +196,16 @@ def c03_family(tier, sd=0):
     add([("arr", ("struct", "In"), 2), ("u", 3)], structs=[In])
     add([("u", 3), ("enum", "E256"), ("enum", "E65535"), ("u", 2)], {"E256": mk_enum("E256", 256), "E65535": mk_enum("E65535", 65535)})
     add([("enum", "Ebig"), ("u", 1)], {"Ebig": mk_enum("Ebig", 2 ** 31 - 1)})
+    # rpc envelopes: the structs the generator derives from a service (<Payload>Input/Output = service id, method id,
+    # payload) are structs of the generated header as well; expectation written from the documented 8+8 bit rpc header
+    Req = ("Req", [("a", 0, ("u", 7)), ("b", 1, ("i", 5))])
+    Resp = ("Resp", [("r", 0, ("u", 12))])
+    for sid, mid, topn, pay in ((2, 1, "ReqInput", "Req"), (2, 1, "RespOutput", "Resp"), (200, 130, "ReqInput", "Req")):
+        env = (topn, [("service_id", 0, ("enum", "ServiceId")), ("method_id", 1, ("enum", "SvcMethodId")),
+                      ("payload", 2, ("struct", pay))])
+        fam.append(Schema(structs=[Req, Resp, env], top=topn, hidden=("ServiceId", "SvcMethodId", topn),
+                          enums={"ServiceId": [("Svc", sid), ("Size", 255)], "SvcMethodId": [("Call", mid), ("Size", 255)]},
+                          extra="service Svc @%d {\n    method Call(Req) @%d returns Resp,\n}\n" % (sid, mid)))
     if tier == "thorough":
         add([("u", 3), ("opt", ("struct", "In")), ("i", 2)], structs=[In])
         add([("u", 1), ("dyn", ("struct", "In"))], structs=[In])
@@ -208,8 +218,8 @@ def c03_family(tier, sd=0):
             fam.append(random_schema(rng, include_enums=True, fixed_only=True, depth=1, maxfields=4))
     seen, out = set(), []
     for s in fam:
-        if s.text() not in seen:
-            seen.add(s.text())
+        if (s.text(), s.top) not in seen:
+            seen.add((s.text(), s.top))
             out.append(s)
     return out
 
@@ -567,7 +577,7 @@ def run_c03(tier: str) -> int:
         "json_entry": "StaticSchema::EncodeJson/DecodeJson with real nlohmann::json values (interpreted) for a third of the "
                       "width family and all other shapes (quick) / every schema (thorough): bytes == canonical bytes, "
                       "decoded JSON dumped field by field == the value (signed fields must be signed JSON numbers)",
-        "outside": "rpc/service headers, Endianess::Big, float NaN payloads, Optional of a container through JSON",
+        "outside": "rpc broker/client/server headers (envelope structs are inside), Endianess::Big, float NaN payloads, Optional of a container through JSON",
     }
     rep.stubs = ["operator new/delete (fresh 0xAA-filled block)", "basic_string::_M_create (libstdc++ capacity rule)",
                  "memcmp/strlen", "__cxa_throw & std::__throw_* end the path as a C++ exception", "llvm.* intrinsics"]
